@@ -96,14 +96,14 @@ Proof.
   - cbn [some_b] in cq.
     assert (Hmod : forall w0, w_mod (match r with Some t => set_fes (set_mod w0 m
               {| active := false; inc := inc (w_mod (x_w s) m) + 1; bud := bud (w_mod (x_w s) m); shut := None;
-                 nw := nw_bump now n; timers := []; ready := []; tpanics := tpanics (w_mod (x_w s) m) |}) (fes_add t (EvRestart m) (w_fes (set_mod w0 m
+                 nw := nw_bump now n; timers := []; ready := []; tpanics := tpanics (w_mod (x_w s) m); catchf := catchf (w_mod (x_w s) m) |}) (fes_add t (EvRestart m) (w_fes (set_mod w0 m
               {| active := false; inc := inc (w_mod (x_w s) m) + 1; bud := bud (w_mod (x_w s) m); shut := None;
-                 nw := nw_bump now n; timers := []; ready := []; tpanics := tpanics (w_mod (x_w s) m) |})))
+                 nw := nw_bump now n; timers := []; ready := []; tpanics := tpanics (w_mod (x_w s) m); catchf := catchf (w_mod (x_w s) m) |})))
               | None => set_mod w0 m
               {| active := false; inc := inc (w_mod (x_w s) m) + 1; bud := bud (w_mod (x_w s) m); shut := None;
-                 nw := nw_bump now n; timers := []; ready := []; tpanics := tpanics (w_mod (x_w s) m) |} end) m =
+                 nw := nw_bump now n; timers := []; ready := []; tpanics := tpanics (w_mod (x_w s) m); catchf := catchf (w_mod (x_w s) m) |} end) m =
               {| active := false; inc := inc (w_mod (x_w s) m) + 1; bud := bud (w_mod (x_w s) m); shut := None;
-                 nw := nw_bump now n; timers := []; ready := []; tpanics := tpanics (w_mod (x_w s) m) |}).
+                 nw := nw_bump now n; timers := []; ready := []; tpanics := tpanics (w_mod (x_w s) m); catchf := catchf (w_mod (x_w s) m) |}).
     { intros w0. destruct r; wsimpl; rewrite N.eqb_refl; reflexivity. }
     cbn [inc bud tpanics nw set_nw]. rewrite Hmod. cbn [inc]. split; [|split; [|split]].
     + unfold TI. rewrite Hmod. cbn [ready timers shut]. repeat split; constructor.
@@ -373,14 +373,14 @@ Proof.
 Qed.
 
 (* scripts without panics: every such record carries is_active = true *)
-Lemma act_st_no_panic l : (forall m, ~ In (IPanic m 0) l) -> act_st false l <> None ->
+Lemma act_st_no_panic l : (forall m c, ~ In (IPanic m 0 c) l) -> act_st false l <> None ->
   forall m c t a, In (ICall m c t a) l -> a = true.
 Proof.
   induction l as [|i l IH]; intros Hn Hs m c t a Hin; [destruct Hin|].
-  assert (Hn' : forall m, ~ In (IPanic m 0) l) by (intros m0 C; apply (Hn m0); right; exact C).
+  assert (Hn' : forall m c, ~ In (IPanic m 0 c) l) by (intros m0 c1 C; apply (Hn m0 c1); right; exact C).
   destruct Hin as [->|Hin].
   - cbn [act_st] in Hs. destruct a; [reflexivity|]. cbn [orb] in Hs. contradiction.
-  - destruct i as [m0 c0 t0 a0| | | | | |m0 who| | |]; cbn [act_st] in Hs; try (eapply IH; eauto; fail).
+  - destruct i as [m0 c0 t0 a0| | | | | |m0 who cc| | | |]; cbn [act_st] in Hs; try (eapply IH; eauto; fail).
     + destruct a0; cbn [orb] in Hs; [eapply IH; eauto|contradiction].
-    + destruct who; [exfalso; apply (Hn m0); left; reflexivity|eapply IH; eauto].
+    + destruct who; [exfalso; apply (Hn m0 cc); left; reflexivity|eapply IH; eauto].
 Qed.
